@@ -25,6 +25,10 @@ const (
 func getBundleIDFromPath(path string) (string, error) {
 	info, err := model.GetConsumableStorePathMetadata(path)
 	if err != nil {
+		if _, ok := err.(model.ConsumableStorePathMetadataErr); ok {
+			// a data file, not bundle metadata: keep looking
+			return "", nil
+		}
 		return "", err
 	}
 	if info.Type != model.ConsumableStorePathTypeDescriptor {
